@@ -211,7 +211,9 @@ def build_harness(res, features=None, tag="default"):
 
 # ---------------------------------------------------------------- running both sides
 def run_sharded(binary, casefile_lines, tag, timeout=1200, env=None):
-    """splits the case list into NPROC shards on CASE boundaries, runs [binary shard] in parallel"""
+    """splits the case list into NPROC shards on CASE boundaries, runs [binary shard] in parallel.
+    A process that dies (stack overflow, abort) loses only the case it was working on: the cases after it are
+    run again in a new process, the case itself gets a PANIC line with the exit status."""
     os.makedirs(WORK, exist_ok=True)
     cases = []
     cur = []
@@ -223,31 +225,44 @@ def run_sharded(binary, casefile_lines, tag, timeout=1200, env=None):
     k = max(1, min(NPROC, len(cases)))
     shards = [[] for _ in range(k)]
     for i, c in enumerate(cases):
-        shards[i % k].extend(c)
-    procs = []
+        shards[i % k].append(c)
     e = dict(os.environ)
     if env:
         e.update(env)
-    for i, s in enumerate(shards):
-        p = os.path.join(WORK, "%s.%d.%d.cases" % (tag, os.getpid(), i))
-        with open(p, "w") as f:
-            f.write("\n".join(s) + "\n")
-        procs.append(subprocess.Popen(["timeout", str(timeout), binary, p], stdout=subprocess.PIPE,
-                                      stderr=subprocess.DEVNULL, text=True, env=e))
     out = {}
     fails = []
-    paths = [os.path.join(WORK, "%s.%d.%d.cases" % (tag, os.getpid(), i)) for i in range(len(shards))]
-    for i, p in enumerate(procs):
-        o, _ = p.communicate()
-        try:
-            os.remove(paths[i])
-        except OSError:
-            pass
-        if p.returncode != 0:
-            fails.append((i, p.returncode))
-        for line in o.splitlines():
-            parts = line.split(" ", 1)
-            out.setdefault(parts[0], []).append(parts[1] if len(parts) > 1 else "")
+
+    def launch(i, cs, rnd):
+        p = os.path.join(WORK, "%s.%d.%d.%d.cases" % (tag, os.getpid(), i, rnd))
+        with open(p, "w") as f:
+            f.write("\n".join("\n".join(c) for c in cs) + "\n")
+        return p, subprocess.Popen(["timeout", str(timeout), binary, p], stdout=subprocess.PIPE, stderr=subprocess.DEVNULL, text=True, env=e)
+
+    pending = [(i, cs, 0) + launch(i, cs, 0) for i, cs in enumerate(shards) if cs]
+    while pending:
+        nxt = []
+        for i, cs, rnd, path, proc in pending:
+            o, _ = proc.communicate()
+            try:
+                os.remove(path)
+            except OSError:
+                pass
+            answered = set()
+            for line in o.splitlines():
+                parts = line.split(" ", 1)
+                out.setdefault(parts[0], []).append(parts[1] if len(parts) > 1 else "")
+                answered.add(parts[0])
+            if proc.returncode != 0:
+                fails.append((i, proc.returncode))
+                ids = [c[0].split()[1] for c in cs]
+                # the first case without any output line is the one the process died in (output is flushed per case)
+                dead = next((j for j, cid in enumerate(ids) if cid not in answered), None)
+                if dead is not None and rnd < 50 and proc.returncode != 124:
+                    out.setdefault(ids[dead], []).append("PANIC the process died in this case (exit status %s: stack overflow / abort)" % proc.returncode)
+                    rest = cs[dead + 1:]
+                    if rest:
+                        nxt.append((i, rest, rnd + 1) + launch(i, rest, rnd + 1))
+        pending = nxt
     return out, fails
 
 
